@@ -172,7 +172,6 @@ def toi(x):
 class SI:
     """symbolic integer with a declared range [lo, hi] used for concretisation"""
     __slots__ = ("e", "lo", "hi")
-    __array_priority__ = 1000
 
     def __init__(self, e, lo=-16, hi=16):
         self.e = e
@@ -286,10 +285,12 @@ LIFT_FLOATS = True
 def reset_sqrt():
     _SQ.clear()
     _EXP_ATOMS.clear()
+    _DIVS.clear()
 
 
 def sqrt_axioms():
-    return [z3.And(v * v == z3.RealVal(str(q)), v > 0) for q, v in _SQ.items()]
+    """side conditions defining auxiliary symbols (sqrt constants, quotients)"""
+    return [z3.And(v * v == z3.RealVal(str(q)), v > 0) for q, v in _SQ.items()] + [ax for _, ax in _DIVS.values()]
 
 
 def sqrt_values():
@@ -396,13 +397,26 @@ def r_div(a, b):
         return r_mul(a, 1 / b)
     if _isz(a):
         return Fraction(0)
-    return zr(a) / zr(b)
+    # symbolic divisor: fresh quotient q with the defining axiom q*b == a (b != 0 is
+    # assumed: the real code would raise / produce inf there).  Far easier for nlsat
+    # than a division term.
+    key = (zr(a).sexpr(), zr(b).sexpr())
+    if key not in _DIVS:
+        q = z3.Real("div!%d" % len(_DIVS))
+        _DIVS[key] = (q, z3.And(q * zr(b) == zr(a), zr(b) != 0))
+    return _DIVS[key][0]
+
+
+_DIVS = {}
+
+
+def div_axioms():
+    return [ax for _, ax in _DIVS.values()]
 
 
 class S:
     """complex scalar: (re, im), each a Fraction or z3 Real term"""
     __slots__ = ("re", "im")
-    __array_priority__ = 1000
     NOCONJ = False     # harnesses over real symbols forbid conjugation (DESIGN 2.1)
 
     def __init__(self, re, im=Fraction(0)):
@@ -631,6 +645,11 @@ def sym_exp(x):
         return S.of(cmath.exp(complex(x)))
     a = z3.simplify(zr(x.re), som=True) if not isinstance(x.re, Fraction) else zr(x.re)
     b = z3.simplify(zr(x.im), som=True) if not isinstance(x.im, Fraction) else zr(x.im)
+    if z3.is_rational_value(a) and z3.is_rational_value(b):
+        # argument provably concrete after simplification (e.g. (o_a - o_a) * eta)
+        fa = Fraction(a.numerator_as_long(), a.denominator_as_long())
+        fb = Fraction(b.numerator_as_long(), b.denominator_as_long())
+        return sym_exp(S(fa, fb))
     key = (a.sexpr(), b.sexpr())
     if key not in _EXP_ATOMS:
         k = len(_EXP_ATOMS)
